@@ -1,8 +1,8 @@
 CONSTANT FIXED = TRUE
 CONSTANT FIXED2 = TRUE
 CONSTANT FIXED3 = TRUE
-CONSTANT FIXED4 = FALSE
-CONSTANT FIXED5 = TRUE
+CONSTANT FIXED4 = TRUE
+CONSTANT FIXED5 = FALSE
 INIT Init
 NEXT Next
 INVARIANT Refines
